@@ -51,7 +51,7 @@ def main(tier='quick', nshards=16, seed=0):
     p0 = C05()
     pool = litmine.pool(fw.REPO, p0.anchors)
     combos = p0.combos(tier)
-    want = collections.Counter((tpl, ht, shape) for (tpl, ht, shape, rep) in combos)
+    want = collections.Counter((tpl, ht, shape) for (tpl, ht, shape, rep, mode) in combos)
     got = collections.Counter()
     per_combo = collections.defaultdict(lambda: collections.defaultdict(collections.Counter))
     owners = collections.defaultdict(set)
@@ -63,6 +63,7 @@ def main(tier='quick', nshards=16, seed=0):
         p.setup()
         rng = random.Random('%s:%s:%s:%d' % (seed, p.id, tier, shard))
         ncombo = -1
+        mine = [c for j, c in enumerate(combos) if j % nshards == shard]
         for c in p.generate(rng, tier, shard, nshards):
             total += 1
             tag = c.get('tag', '').split('/')
@@ -76,10 +77,14 @@ def main(tier='quick', nshards=16, seed=0):
                 owners[key].add(shard)
             d = per_combo[(shard, ncombo)]
             d['key'] = key
+            d['mode'] = mine[ncombo][4]
+            assert (mine[ncombo][0], mine[ncombo][1], mine[ncombo][2]) == key, (mine[ncombo], key)
             if c['op'] == 'c05.case':
                 e = c['args'][8]
                 if e == '-':
                     d['kinds']['/'.join(tag[3:]) or 'base'] += 1
+                elif tag[3:] == ['mixed']:
+                    d['kinds']['mixed-edit'] += 1
                 else:
                     f = e.split(':')
                     kind = f[0]
@@ -99,15 +104,28 @@ def main(tier='quick', nshards=16, seed=0):
         print('COMBO PARTITION BROKEN: missing', list((want - got).items())[:5], 'surplus', list((got - want).items())[:5])
     for (shard, n), d in per_combo.items():
         tpl, ht, (nin, nout, idx) = d['key']
+        if d['mode'] != 'full':
+            if d['kinds']['base'] < 1 or sum(d['edits'].values()) < 4:
+                bad += 1
+                print('SWEEP COMBO INCOMPLETE', d['key'])
+            continue
         exp = expected_edits(nin, nout, idx)
+        # one insertion beyond the end per list, one inapplicable edit per list
+        if not any(k[0] == 'ii' and k[1] > nin for k in d['edits']) or not any(k[0] == 'io' and k[1] > nout for k in d['edits']):
+            bad += 1
+            print('NO OUT-OF-RANGE INSERT', d['key'])
         missing = {k: v for k, v in exp.items() if d['edits'][k] < v}
         if missing:
             bad += 1
             print('EDIT CATALOGUE INCOMPLETE', d['key'], list(missing.items())[:6])
-        need = ['base', 'wrongkey', 'wrong-type-byte', 'empty-sig', 'c05.tmpl:template', 'c05.vsig:vsig',
-                'c05.vsig:vsig-other-output', 'c05.vsig:vsig-other-tx']
-        if tpl.endswith('of3'):
-            need += ['repeated', 'reordered', 'wrongkey-last']
+        p2sh, base, m, n = C05.parse_template(tpl)
+        need = ['base', 'c05.tmpl:template', 'c05.vsig:vsig', 'c05.vsig:vsig-other-output', 'c05.vsig:vsig-other-tx']
+        if m >= 1:
+            need += ['wrongkey', 'wrong-type-byte', 'empty-sig']
+        if m >= 2:
+            need += ['repeated', 'reordered', 'wrongkey-last', 'mixed']
+        if m == 0:
+            nin = 0          # no swapped-signature cases without signatures
         if tpl.endswith('p2pkh'):
             need += ['wrongkey-pub']
         if nin >= 2:
